@@ -324,3 +324,14 @@ Theorem C05_re_verdict_from_source :
   (run_rule orc U FE ST fn_Re vn obj field v = Some [] <-> rRe orc vn obj field v = []).
 Proof. exact re_rule_writes_iff_clause. Qed.
 Print Assumptions C05_re_verdict_from_source.
+
+(* GetTimeFmt (valid/init.go), the layout builder every date rule hands to time.Parse: from its syntax tree regenerated
+   on every run — the switch on the number of separators, the function literal joinFn with its two early returns, the
+   six flag tests — it computes the model's get_time_fmt for every combination of the six flags (the only values its
+   callers pass are such combinations) and every list of separators: none, one, two, three or more (ignored). *)
+From PGV Require Import Extracted.SourceFnsTimeFmt Model.GoTimeFmt Proofs.GoTimeFmtProofs.
+Theorem C05_timefmt_from_source :
+  forall (y mo d h mi s : bool) (splits : list str),
+  run_timefmt fn_GetTimeFmt (mask6 y mo d h mi s) splits = Some (get_time_fmt (mask6 y mo d h mi s) splits).
+Proof. exact timefmt_from_source. Qed.
+Print Assumptions C05_timefmt_from_source.
